@@ -126,15 +126,23 @@ def payloadTag : Nat := 3
 def timestampTag : Nat := 4
 
 /-- `validateJournalRecord(buf)`; `extra = cap(buf) - len(buf)`.  `true` = valid. -/
-def validate (buf : Bytes) (extra : Nat) : R Bool := do
-  if buf.length < lenSz + checksumSz then return false
-  let off ← be32 buf
-  if off > buf.length then return false
-  let off := sub32 off checksumSz                        -- uint32 `off -= journalRecChecksumSz`
-  if ¬ (off ≤ buf.length + extra) then panic              -- buf[:off]   (bounded by cap(buf))
-  let tail ← goSliceFrom buf 0 buf.length off            -- buf[off:]   (bounded by len(buf))
-  let chk ← be32 tail
-  return crc32c (buf.take off) == chk
+def validate (buf : Bytes) (extra : Nat) : R Bool :=
+  if buf.length < lenSz + checksumSz then .ok false
+  else
+    match be32 buf with
+    | .error e => .error e
+    | .ok off0 =>
+      if off0 > buf.length then .ok false                  -- int(off) > len(buf)
+      else
+        let off := sub32 off0 checksumSz                   -- uint32 `off -= journalRecChecksumSz`
+        if ¬ (off ≤ buf.length + extra) then panic          -- buf[:off]   (bounded by cap(buf))
+        else
+          match goSliceFrom buf 0 buf.length off with       -- buf[off:]   (bounded by len(buf))
+          | .error e => .error e
+          | .ok tail =>
+            match be32 tail with
+            | .error e => .error e
+            | .ok chk => .ok (crc32c (buf.take off) == chk)
 
 structure Rec where
   length : Nat
